@@ -40,6 +40,7 @@ ASSUMPTIONS = [
 ]
 
 TARGET = "tcp-lines://127.0.0.1:20162"
+INVALID_KINDS = ("int", "float", "autoint", "hexint", "hexbytes", "ranges")  # kinds for which the text "zz" is not a value
 
 
 def flat_commands() -> list[tuple[str, Any]]:
@@ -75,19 +76,56 @@ def intact(f: Any, d: dict[str, Any]) -> bool:
 
 
 def kind_of_field(f: Any) -> str | None:
-    """kind of a field; integer fields with validators are probed for the notation they accept"""
+    """kind of a field; fields with validators are probed for the notation they accept (behavioural classification)"""
     k = kind_of(f.annotation)
-    if k is None or not k.startswith("int") or not f.metadata:
-        return k
+    import enum
+
     import pydantic
 
+    if k is None:
+        ann = f.annotation
+        opt = ""
+        if typing.get_origin(ann) in (typing.Union, types.UnionType):
+            args = [a for a in typing.get_args(ann) if a is not type(None)]
+            if len(args) != 1:
+                return None
+            ann, opt = args[0], "?"
+        base = typing.get_args(ann)[0] if typing.get_origin(ann) is typing.Annotated else ann
+        if getattr(base, "__name__", "") == "TargetURI":
+            return "target" + opt
+        try:
+            ta = pydantic.TypeAdapter(typing.Annotated[(ann, *f.metadata)] if f.metadata else ann)  # type: ignore[arg-type]
+        except Exception:  # noqa: BLE001
+            return None
+
+        def accepts(text: Any, value: Any) -> bool:
+            try:
+                return bool(ta.validate_python(text) == value)
+            except Exception:  # noqa: BLE001
+                return False
+
+        if base is int and accepts("10", 16):
+            return "hexint" + opt
+        if base is bytes and accepts("3e00", b"\x3e\x00"):
+            return "hexbytes" + opt
+        if typing.get_origin(base) is list and typing.get_args(base) == (int,) and accepts("1-3", [1, 2, 3]):
+            return "ranges" + opt
+        if isinstance(base, type) and issubclass(base, enum.Enum) and len(list(base)) >= 3:
+            m = list(base)[0]
+            if accepts(m.name, m) and isinstance(m.value, int) and accepts(hex(m.value), m):
+                return "enum" + opt
+        if getattr(base, "__name__", "") == "TargetURI":
+            return "target" + opt
+        return None
+    if not k.startswith("int") or not f.metadata:
+        return k
     try:
         ta = pydantic.TypeAdapter(typing.Annotated[(f.annotation, *f.metadata)])  # type: ignore[arg-type]
         ten = ta.validate_python("10")
     except Exception:  # noqa: BLE001
         return None
     if ten == 16:
-        return None  # HexInt: base-16 only, not modelled
+        return "hexint" + ("?" if k.endswith("?") else "")
     try:
         if ta.validate_python("0x10") == 16:
             return "autoint" + ("?" if k.endswith("?") else "")
@@ -144,6 +182,16 @@ def values_for(kind: str, i: int, d: Path) -> tuple[Any, str, Any, Any]:
     if k == "path":
         v = d / ["p1", "p2", "p3"][i]
         return v, str(v), str(v), str(v)
+    if k == "hexint":
+        # the file (and a stored config) holds the number, the command line and the environment hex digits
+        v = [0x7F, 200, 0x1234][i]
+        return v, [format(v, "x"), hex(v), format(v, "X")][i], [hex(v), format(v, "x"), format(v, "x")][i], v
+    if k == "hexbytes":
+        v = [b"\x22\xf1\x90", b"\x3e\x00", b"\x10\x03\xaa\xbb"][i]
+        return v, v.hex(), v.hex().upper() if i == 1 else v.hex(), v.hex()
+    if k == "ranges":
+        v = [[1, 2, 3], [16, 32], [5, 7, 8, 9]][i]
+        return v, ["1-3", "0x10,0x20", "5,7-9"][i], ["1-3", "0x10,0x20", "5,7-9"][i], [[1, 2, 3], "0x10,0x20", ["5", "7-9"]][i]
     raise AssertionError(kind)
 
 
@@ -304,7 +352,21 @@ def check_cell(name: str, command: Any, cell: dict[str, Any], subset: tuple[bool
             filed = nested(dd["section"], attr, vals["file"])
         expected = vals["cli"] if cli else vals["env"] if env else vals["file"] if file_ else default
     else:
-        trip = [values_for(kind, i, d) for i in order]
+        if kind.rstrip("?") == "enum":
+            ann = f.annotation
+            if typing.get_origin(ann) in (typing.Union, types.UnionType):
+                ann = [a for a in typing.get_args(ann) if a is not type(None)][0]
+            members = list(typing.get_args(ann)[0] if typing.get_origin(ann) is typing.Annotated else ann)
+            pick = [members[0], members[len(members) // 2], members[-1]]
+            trip = [(pick[i], [pick[i].name, hex(pick[i].value), str(pick[i].value)][i], [hex(pick[i].value), pick[i].name, pick[i].name][i],
+                     [pick[i].value, pick[i].name, hex(pick[i].value)][i]) for i in order]
+        elif kind.rstrip("?") == "target":
+            cur = base[base.index(long_opt) + 1] if long_opt in base else TARGET
+            m_ = re.match(r"^(.*:)(\d+)$", cur)
+            alts = [f"{m_.group(1)}{20001 + i}" if m_ else f"{cur.rstrip('0123456789')}{i + 1}" for i in range(3)]
+            trip = [(alts[i], alts[i], alts[i], alts[i]) for i in order]
+        else:
+            trip = [values_for(kind, i, d) for i in order]
         if dd["positional"]:
             # positional values replace the dummy supplied by the solver
             return [], "positional"
@@ -331,13 +393,15 @@ def check_cell(name: str, command: Any, cell: dict[str, Any], subset: tuple[bool
     got = getattr(cfg, attr)
     if kind.startswith("path") and got is not None:
         got = Path(got)
+    if kind.startswith("target") and got is not None:
+        got = str(got)
     if got != expected:
         out.append((f"C18/precedence/wrong-value/{src}/{kind.rstrip('?')}", f"{ctx}: effective value {got!r}, expected {expected!r}"))
     # round trip of the stored configuration
     try:
         dumped = cfg.model_dump_json()
         again = command.CONFIG_TYPE(**json.loads(dumped))
-        if json.loads(again.model_dump_json()) != json.loads(command.CONFIG_TYPE(**{k: getattr(cfg, k) for k in command.CONFIG_TYPE.model_fields if k != "init_kwargs"}).model_dump_json()):
+        if json.loads(again.model_dump_json()) != json.loads(dumped):
             out.append((f"C18/roundtrip/differs/{name.replace(' ', '-')}", f"{ctx}: {dumped[:300]} -> {again.model_dump_json()[:300]}"))
     except Exception as e:  # noqa: BLE001
         out.append((f"C18/roundtrip/raises-{type(e).__name__}/{name.replace(' ', '-')}", f"{ctx}: {type(e).__name__}: {str(e)[:300]}"))
@@ -353,10 +417,21 @@ def _without(base: list[str], long_opt: str) -> list[str]:
     return args
 
 
-def check_invalid(name: str, command: Any, cell: dict[str, Any], source: str, base: list[str]) -> list[tuple[str, str]]:
+def check_invalid(name: str, command: Any, cell: dict[str, Any], source: str, base: list[str], d: Path | None = None) -> list[tuple[str, str]]:
+    """source = where the invalid value comes from; "a+b" = invalid value from a while the lower-priority source b holds a valid one
+    (the message has to blame a)."""
     attr, kind, dd = cell["option"], cell["kind"], cell["decl"]
     long_opt = "--" + attr.replace("_", "-")
     args, envd, filed = _without(base, long_opt), {}, {}
+    source, _, lower = source.partition("+")
+    if lower:
+        good = values_for(kind, 0, d or Path("/nonexistent"))
+        if lower == "env":
+            envd[f"GALLIA_{attr.upper()}"] = good[2]
+        else:
+            if dd["section"] is None:
+                return []
+            filed = nested(dd["section"], attr, good[3])
     if source == "cli":
         args += [long_opt, "zz"]
         needle = f"argument {long_opt}" if dd["short"] is None else f"argument -{dd['short']}, {long_opt}"
@@ -369,13 +444,19 @@ def check_invalid(name: str, command: Any, cell: dict[str, Any], source: str, ba
         filed = nested(dd["section"], attr, "zz")
         needle = f"config file ({dd['section']}:{attr})"
     status, _cfg, err = parse(command, args, envd, filed)
-    ctx = f"{name} {attr} ({kind}) invalid value via {source}"
+    src = source + (f"+valid-{lower}" if lower else "")
+    ctx = f"{name} {attr} ({kind}) invalid value via {src}"
     if status == "ok":
-        return [(f"C18/invalid-value/accepted/{source}/{kind.rstrip('?')}", f"{ctx}: accepted; effective value {getattr(_cfg, attr)!r}")]
+        return [(f"C18/invalid-value/accepted/{src}/{kind.rstrip('?')}", f"{ctx}: accepted; effective value {getattr(_cfg, attr)!r}")]
     if status != "exit2":
-        return [(f"C18/invalid-value/{status}/{source}", f"{ctx}: {err[-200:]}")]
+        return [(f"C18/invalid-value/{status}/{src}", f"{ctx}: {err[-200:]}")]
+    last = err.strip().splitlines()[-1] if err.strip() else ""
     if needle not in err:
-        return [(f"C18/invalid-value/source-not-named/{source}", f"{ctx}: message {err.strip().splitlines()[-1][:200]!r} does not contain {needle!r}")]
+        return [(f"C18/invalid-value/source-not-named/{src}", f"{ctx}: message {last[:200]!r} does not contain {needle!r}")]
+    if lower:
+        other = f"GALLIA_{attr.upper()}" if lower == "env" else f"config file ({dd['section']}:{attr})"
+        if other in err[max(err.rfind("error: "), err.rfind("errors: ")):]:
+            return [(f"C18/invalid-value/wrong-source-blamed/{src}", f"{ctx}: message {last[:200]!r} blames {other!r}, whose value is valid")]
     return []
 
 
@@ -477,11 +558,11 @@ def run_shard(spec: dict[str, Any], seed: int) -> Collector:
                         col.case((name, cell["option"], subset, rot), sum(subset) >= 2, cls=f"{cell['kind']}/{label}", sample=case)
                         for b, m in res:
                             col.violation(b, case, m)
-                if cell["kind"].rstrip("?") in ("int", "float", "autoint") and not cell["decl"]["positional"]:
-                    for source in ("cli", "env", "file"):
+                if cell["kind"].rstrip("?") in INVALID_KINDS and not cell["decl"]["positional"]:
+                    for source in ("cli", "env", "file", "cli+env", "cli+file", "env+file"):
                         case = {"kind": "invalid", "command": name, "option": cell["option"], "source": source}
                         col.case((name, cell["option"], "invalid", source), True, cls=f"invalid/{source}", sample=case)
-                        for b, m in check_invalid(name, command, cell, source, base):
+                        for b, m in check_invalid(name, command, cell, source, base, d):
                             col.violation(b, case, m)
     finally:
         import shutil
@@ -510,7 +591,7 @@ def replay(witness: Any) -> list[tuple[str, str]]:
     try:
         cell = next(c for c in option_cells(w["command"], command, d) if c["option"] == w["option"])
         if w["kind"] == "invalid":
-            return check_invalid(w["command"], command, cell, w["source"], base)
+            return check_invalid(w["command"], command, cell, w["source"], base, d)
         if not cell["intact"] or cell["kind"] is None:
             return []
         return check_cell(w["command"], command, cell, tuple(w["subset"]), d, base, w.get("rot", 0))[0]
